@@ -43,6 +43,10 @@ type c15Case struct {
 	// Twin (include only): in the same Execute a second template, in another directory, includes the same
 	// spelling; each include resolves against its own file.
 	Twin bool `json:"twin,omitempty"`
+	// ParseAs != "": the referring template is not loaded by name but handed to Set.Parse under this
+	// (possibly relative, possibly unclean) spelling of its name; its own references resolve as if it had
+	// been loaded under the canonical form of that name.
+	ParseAs string `json:"parse_as,omitempty"`
 }
 
 const c15TwinRef = "/tw/in/r"
@@ -174,6 +178,11 @@ func genC15(t *rapid.T) c15Case {
 	}
 	if (c.Via == "include" || c.Via == "include-computed") && !c.Missing && rapid.IntRange(0, 2).Draw(t, "twin") == 0 {
 		c.Twin = true
+		return c
+	}
+	if c.Via != "get" && rapid.IntRange(0, 3).Draw(t, "parseEntry") == 0 {
+		ref := c.referrer()
+		c.ParseAs = []string{ref[1:], "./" + ref[1:], ref, "zz/.." + ref, "/" + ref}[rapid.IntRange(0, 4).Draw(t, "parseSpelling")]
 		return c
 	}
 	if c.Via != "get" {
@@ -326,7 +335,13 @@ func (c c15Case) run(spelling string, tmp string) (trace []traceEv, out jetrun.O
 	if c.Hop != "" || c.Twin {
 		entry = c15Entry
 	}
-	t, o := jetrun.Get(s, entry)
+	var t *jet.Template
+	var o jetrun.Outcome
+	if c.ParseAs != "" {
+		t, o = jetrun.Parse(s, c.ParseAs, files[c.referrerFile()])
+	} else {
+		t, o = jetrun.Get(s, entry)
+	}
 	if o.Failed() {
 		return trace, o, nil, false
 	}
@@ -451,6 +466,9 @@ func judgeC15(c c15Case) (v core.Verdict) {
 	}
 	if c.Missing {
 		v.Label("target-missing")
+	}
+	if c.ParseAs != "" {
+		v.Label("referrer-handed-to-Set.Parse")
 	}
 	if c.Twin {
 		v.Label("same-spelling-included-from-two-directories")
